@@ -10,6 +10,17 @@
 //! collection's creator, and direct UpdateStartTradingTime calls on the collection, for
 //! sg721-base and sg721-updatable collections.
 //!
+//! Anchor sweep: every world also carries the configuration dimensions a bound COULD be
+//! wrongly anchored at (open editions with no / near / far end time, with and without a token
+//! limit; a whitelist attached at creation with a window before or after the mint start),
+//! and trading times are requested — at creation and on update — at every candidate anchor
+//! (creation time, clock, mint start as last accepted and as created, end time as last
+//! accepted and as created, whitelist start / end, genesis) plus the offset (current, as at
+//! creation, previous) plus 0 / 1 ns, before and after governance lowered / raised the offset
+//! and the admin moved the mint start and the end time.  The monitors judge against a harness
+//! LEDGER (mint start as last accepted, offset as governance last set it), never against
+//! values read back from the contracts.
+//!
 //! Times in a case are SYMBOLIC (relative to the clock, the stored mint start and the
 //! offset the factory reports when the op is run), so a replay file re-runs exactly.
 //! Monitors are written from the property text and use checked u64 arithmetic on the
@@ -79,6 +90,43 @@ pub enum T {
     /// clock + offset in force * 10^9 + d
     NowPlusOffset(i64),
     Abs(u64),
+    /// candidate anchor + a governance offset (current / as at creation / the one before the last
+    /// change) * 10^9 + d; not applicable (the op is skipped) when the world has no such anchor
+    A { anchor: Anchor, off: OffSel, d: i64 },
+}
+/// every instant of a world that a bound COULD be anchored at (only the stored mint start is right)
+#[derive(Clone, Copy, Debug, Serialize, Deserialize, PartialEq, Eq)]
+pub enum Anchor {
+    Creation,
+    Now,
+    /// the mint start as last accepted (harness ledger)
+    Start,
+    /// the mint start given at creation
+    OrigStart,
+    /// open editions: the end time as last accepted / as given at creation
+    End,
+    OrigEnd,
+    /// start / end of the whitelist attached at creation
+    WlStart,
+    WlEnd,
+    Genesis,
+}
+const ANCHORS: [Anchor; 9] = [Anchor::Creation, Anchor::Now, Anchor::Start, Anchor::OrigStart, Anchor::End, Anchor::OrigEnd, Anchor::WlStart, Anchor::WlEnd, Anchor::Genesis];
+#[derive(Clone, Copy, Debug, Serialize, Deserialize, PartialEq, Eq)]
+pub enum OffSel {
+    Cur,
+    Orig,
+    Prev,
+}
+/// configuration dimensions of a world beyond family / collection type / start / offset
+#[derive(Clone, Copy, Debug, Default, Serialize, Deserialize, PartialEq, Eq)]
+pub struct Dims {
+    /// open editions: end_time = mint start + this many seconds (None: no end time)
+    pub end_after_secs: Option<u64>,
+    /// open editions: no token limit (needs an end time)
+    pub unlimited: bool,
+    /// a whitelist attached at creation, window (start_in, end_in) seconds after creation (vending, open editions)
+    pub wl: Option<(u64, u64)>,
 }
 #[derive(Clone, Copy, Debug, Serialize, Deserialize, PartialEq, Eq)]
 pub enum Off {
@@ -95,6 +143,8 @@ pub enum Cop {
     Offset { offset: Off },
     Direct { who: String, t: T },
     NewCreator { who: String, to: String },
+    /// open editions: UpdateEndTime
+    EndTime { who: String, t: T },
     /// migrate the minter to its own code id (vending and open-edition families); `stored`
     /// rewrites cw2 first
     Migrate {
@@ -112,21 +162,59 @@ pub struct Case {
     pub offset: Off,
     pub requested: T,
     pub ops: Vec<Cop>,
+    #[serde(default)]
+    pub dims: Dims,
 }
 
 fn sat(base: u128, d: i64) -> u64 {
     let v = base as i128 + d as i128;
     v.clamp(0, u64::MAX as i128) as u64
 }
-fn resolve(t: T, now: u64, start: u64, offset: u64) -> Option<u64> {
-    match t {
+/// the harness ledger: what was requested and accepted so far (never read back from the contracts)
+#[derive(Clone, Copy, Debug)]
+struct Ctx {
+    now: u64,
+    /// mint start as last accepted by the minter
+    start: u64,
+    /// offset as governance last set it
+    offset: u64,
+    orig_start: u64,
+    orig_offset: u64,
+    prev_offset: u64,
+    end: Option<u64>,
+    orig_end: Option<u64>,
+    wl: Option<(u64, u64)>,
+}
+/// outer None: the world has no such anchor (skip the op); inner None: "no time" is requested
+fn resolve(t: T, c: &Ctx) -> Option<Option<u64>> {
+    let (now, start, offset) = (c.now, c.start, c.offset);
+    Some(match t {
         T::None => None,
         T::Now(d) => Some(sat(now as u128, d)),
         T::Start(d) => Some(sat(start as u128, d)),
         T::Bound(d) => Some(sat(start as u128 + offset as u128 * S as u128, d)),
         T::NowPlusOffset(d) => Some(sat(now as u128 + offset as u128 * S as u128, d)),
         T::Abs(x) => Some(x),
-    }
+        T::A { anchor, off, d } => {
+            let a = match anchor {
+                Anchor::Creation => T0,
+                Anchor::Now => now,
+                Anchor::Start => start,
+                Anchor::OrigStart => c.orig_start,
+                Anchor::End => c.end?,
+                Anchor::OrigEnd => c.orig_end?,
+                Anchor::WlStart => c.wl?.0,
+                Anchor::WlEnd => c.wl?.1,
+                Anchor::Genesis => chain::GENESIS_NS,
+            };
+            let o = match off {
+                OffSel::Cur => offset,
+                OffSel::Orig => c.orig_offset,
+                OffSel::Prev => c.prev_offset,
+            };
+            Some(sat(a as u128 + o as u128 * S as u128, d))
+        }
+    })
 }
 fn resolve_off(o: Off, start: u64) -> u64 {
     match o {
@@ -189,11 +277,38 @@ impl FamWorld {
                      "royalty_info": {"payment_address": CREATOR, "share": "0.1"}}})
     }
     /// the chain and the factory; Err only if the harness itself is wrong
-    pub fn new(fam: Fam, updatable: bool, start: u64, offset: u64, requested: Option<u64>) -> Result<FamWorld, String> {
+    pub fn new(fam: Fam, updatable: bool, start: u64, offset: u64, requested: Option<u64>, dims: &Dims) -> Result<FamWorld, String> {
         let mut app = chain::new_app();
         for a in [CREATOR, BUYERS[0], BUYERS[1], STRANGER] {
             chain::mint_coins(&mut app, a, 1_000_000_000_000, NATIVE);
         }
+        // open editions: a whitelist of the kind the variant talks to, with its own window
+        let mut whitelist: Option<Addr> = None;
+        if let (Fam::OpenEdition(i), Some((ws, we))) = (fam, dims.wl) {
+            let (ws, we) = (T0 + ws * S, T0 + we * S);
+            let (code, msg, fee) = match i {
+                0 => (chain::whitelist(),
+                      json!({"members": [BUYERS[0]], "start_time": tsj(ws), "end_time": tsj(we), "mint_price": coinv(60),
+                             "per_address_limit": 2, "member_limit": 1000, "admins": [CREATOR], "admins_mutable": true}),
+                      100_000_000u128),
+                1 => (chain::whitelist_flex(),
+                      json!({"members": [{"address": BUYERS[0], "mint_count": 2}], "start_time": tsj(ws), "end_time": tsj(we),
+                             "mint_price": coinv(60), "member_limit": 1000, "admins": [CREATOR], "admins_mutable": true, "whale_cap": null}),
+                      100_000_000),
+                _ => (chain::whitelist_merkletree(),
+                      json!({"merkle_root": "5ab281bca33c9819e0daa0708d20ddd8a8e5b4de2c1dbaa6f1e0d0fcbb4e1b87", "merkle_tree_uri": null,
+                             "start_time": tsj(ws), "end_time": tsj(we), "mint_price": coinv(60), "per_address_limit": 2,
+                             "admins": [CREATOR], "admins_mutable": true}),
+                      1_000_000_000),
+            };
+            let code_id = app.store_code(code);
+            let a = app
+                .instantiate_contract(code_id, Addr::unchecked(CREATOR), &msg, &[coin(fee, NATIVE)], "wl", None)
+                .map_err(|e| format!("HARNESS whitelist: {:#}", e))?;
+            whitelist = Some(a);
+        }
+        let end_time = dims.end_after_secs.map(|e| start + e * S);
+        let num_tokens: Option<u32> = if dims.unlimited && end_time.is_some() { None } else { Some(10) };
         let minter_code = app.store_code(match fam {
             Fam::OpenEdition(0) => chain::open_edition_minter(),
             Fam::OpenEdition(1) => chain::open_edition_minter_wl_flex(),
@@ -223,8 +338,8 @@ impl FamWorld {
                 "init_msg": {
                     "nft_data": {"nft_data_type": "off_chain_metadata", "extension": null,
                                  "token_uri": "ipfs://bafybeiavall5udkxkdtdm4djezoxrmfc6o5fn2ug3ymrlvibvwmwydgrkm/1.jpg"},
-                    "start_time": tsj(start), "end_time": null, "mint_price": coinv(100), "per_address_limit": 2,
-                    "num_tokens": 10, "payment_address": null, "whitelist": null},
+                    "start_time": tsj(start), "end_time": end_time.map(tsj), "mint_price": coinv(100), "per_address_limit": 2,
+                    "num_tokens": num_tokens, "payment_address": null, "whitelist": whitelist.as_ref().map(|a| a.to_string())},
                 "collection_params": cp}}),
             Fam::TokenMerge => json!({"create_minter": {
                 "init_msg": {
@@ -237,8 +352,8 @@ impl FamWorld {
         let r = chain::exec(&mut app, CREATOR, &factory, &create, &[coin(CREATION_FEE, NATIVE)]);
         let mut w = FamWorld { app, fam, factory, minter: Addr::unchecked("none"), collection: Addr::unchecked("none") };
         r.map_err(|e| format!("create: {}", e))?;
-        // addresses: factory = contract0, minter = contract1, collection = contract2
-        w.minter = Addr::unchecked("contract1");
+        // contract<N> in creation order: [whitelist,] factory, minter, collection
+        w.minter = Addr::unchecked(if whitelist.is_some() { "contract2" } else { "contract1" });
         let c = w.config();
         let coll = match fam {
             Fam::Base => c["collection_address"].as_str(),
@@ -345,7 +460,25 @@ pub fn run_case(c: &Case) -> CaseResult {
     let coll_kind = if c.updatable { "sg721-updatable" } else { "sg721-base" };
     let start0 = T0 + c.start_in_secs * S;
     let offset0 = resolve_off(c.offset, start0);
-    let requested = resolve(c.requested, T0, start0, offset0);
+    let dims = c.dims;
+    let is_oe = matches!(fam, Fam::OpenEdition(_));
+    let end0: Option<u64> = if is_oe { dims.end_after_secs.map(|e| start0 + e * S) } else { None };
+    let wl0: Option<(u64, u64)> = if is_oe || matches!(fam, Fam::Vending(_)) { dims.wl.map(|(a, b)| (T0 + a * S, T0 + b * S)) } else { None };
+    // the ledger (the base minter has no mint start: its creation time stands in, only to resolve symbolic times)
+    let mut led = Ctx {
+        now: T0,
+        start: if fam.bounded() { start0 } else { T0 },
+        offset: offset0,
+        orig_start: if fam.bounded() { start0 } else { T0 },
+        orig_offset: offset0,
+        prev_offset: offset0,
+        end: end0,
+        orig_end: end0,
+        wl: wl0,
+    };
+    let Some(requested) = resolve(c.requested, &Ctx { start: start0, orig_start: start0, ..led }) else {
+        return res; // the world has no such anchor
+    };
     let mut viol = |res: &mut CaseResult, key: &str, what: String| {
         res.violations.push((format!("C19:{}", key), format!("{} / {}: {}", name, coll_kind, what)));
     };
@@ -358,9 +491,13 @@ pub fn run_case(c: &Case) -> CaseResult {
             cfg.start_in_secs = c.start_in_secs;
             cfg.fp.offset_secs = offset0;
             cfg.start_trading = requested;
+            if let Some(win) = dims.wl {
+                cfg.wl = if VARIANTS[i].flex { w_sale::WlKind::Flex } else { w_sale::WlKind::Plain };
+                cfg.wl_windows = vec![win];
+            }
             SaleWorld::new(cfg).map(|w| W::Sale(Box::new(w)))
         }
-        _ => FamWorld::new(fam, c.updatable, start0, offset0, requested).map(|w| W::Fam(Box::new(w))),
+        _ => FamWorld::new(fam, c.updatable, start0, offset0, requested, &dims).map(|w| W::Fam(Box::new(w))),
     };
     res.steps += 1;
     let create_ok = created.is_ok();
@@ -413,7 +550,7 @@ pub fn run_case(c: &Case) -> CaseResult {
         None => "Err".to_string(),
     };
     res.coq.push(format!("(KCreate {} {} {} {} {} {})", fam.coq(), T0, start0, offset0, coq_opt_n(requested), stored_coq));
-    res.nontrivial.push(format!("{}|{}|create|{}|{:?}|{:?}", name, coll_kind, offset0, c.requested, create_ok));
+    res.nontrivial.push(format!("{}|{}|create|{}|{:?}|{:?}|{:?}", name, coll_kind, offset0, c.requested, dims, create_ok));
     let mut w = match created {
         Ok(w) => w,
         Err(_) => {
@@ -431,10 +568,22 @@ pub fn run_case(c: &Case) -> CaseResult {
     // the value the property says must be visible: creation value, then the argument of the last accepted update
     let mut expected: Option<u64> = w.trading();
     let mut ok_updates = 0u64;
+    // identical requests in an identical state are run once: (epoch, sender, time, funds); the epoch
+    // advances with every other operation and every accepted update
+    let mut seen: BTreeSet<(u64, String, Option<u64>, u128)> = BTreeSet::new();
+    let mut epoch = 0u64;
     for op in &c.ops {
         let now = w.now();
-        let start = w.start();
-        let offset = w.offset();
+        led.now = now;
+        // what the handler reads (for the model) ...
+        let cstart = w.start();
+        let coffset = w.offset();
+        // ... and what the property speaks about (for the monitors and the symbolic times)
+        let start = led.start;
+        let offset = led.offset;
+        if !matches!(op, Cop::Trading { .. }) {
+            epoch += 1;
+        }
         let admin = w.admin();
         let before = w.trading();
         let dig = w.digests();
@@ -481,12 +630,15 @@ pub fn run_case(c: &Case) -> CaseResult {
                     }
                 };
                 count(&mut res, "sudo_offset", r);
-                if !r || w.offset() != o {
-                    viol(&mut res, "harness-setup", format!("sudo offset {} not applied", o));
+                if r {
+                    led.prev_offset = led.offset;
+                    led.offset = o;
+                } else {
+                    viol(&mut res, "harness-setup", format!("sudo offset {} refused", o));
                 }
             }
             Cop::StartTime { who, t } => {
-                if let Some(tt) = resolve(*t, now, start, offset) {
+                if let Some(Some(tt)) = resolve(*t, &led) {
                     let ok = match &mut w {
                         W::Sale(sw) => {
                             let (secs, nanos) = rel(tt);
@@ -507,6 +659,19 @@ pub fn run_case(c: &Case) -> CaseResult {
                     };
                     if fam != Fam::Base {
                         count(&mut res, "update_start_time", ok);
+                        if ok {
+                            led.start = tt;
+                        }
+                    }
+                }
+            }
+            Cop::EndTime { who, t } => {
+                if let (true, Some(Some(tt)), W::Fam(fw)) = (is_oe, resolve(*t, &led), &mut w) {
+                    let m = fw.minter.clone();
+                    let ok = chain::exec(&mut fw.app, who, &m, &json!({"update_end_time": tsj(tt)}), &[]).is_ok();
+                    count(&mut res, "update_end_time", ok);
+                    if ok {
+                        led.end = Some(tt);
                     }
                 }
             }
@@ -546,7 +711,7 @@ pub fn run_case(c: &Case) -> CaseResult {
                 count(&mut res, "new_creator", ok);
             }
             Cop::Direct { who, t } => {
-                let tt = resolve(*t, now, start, offset);
+                let Some(tt) = resolve(*t, &led) else { continue };
                 let coll = w.collection();
                 let msg = json!({"update_start_trading_time": tt.map(tsj)});
                 // "@minter": the call is made in the minter contract's name (cannot happen on a chain; it
@@ -574,7 +739,10 @@ pub fn run_case(c: &Case) -> CaseResult {
                 res.nontrivial.push(format!("{}|{}|direct|{}|{:?}", name, coll_kind, who, t));
             }
             Cop::Trading { who, t, funds } => {
-                let tt = resolve(*t, now, start, offset);
+                let Some(tt) = resolve(*t, &led) else { continue };
+                if !seen.insert((epoch, who.clone(), tt, *funds)) {
+                    continue;
+                }
                 let through_sale_world = matches!(w, W::Sale(_)) && *funds == 0;
                 let ok = if through_sale_world {
                     let W::Sale(sw) = &mut w else { unreachable!() };
@@ -599,6 +767,7 @@ pub fn run_case(c: &Case) -> CaseResult {
                 let bound = checked_bound(start, offset);
                 if ok {
                     ok_updates += 1;
+                    epoch += 1;
                     if *who != admin {
                         viol(&mut res, "update-by-non-admin", format!("{} (admin is {}) set the trading time to {:?}", who, admin, tt));
                     }
@@ -608,7 +777,7 @@ pub fn run_case(c: &Case) -> CaseResult {
                         }
                         if fam.bounded() {
                             match bound {
-                                Some(b) if x > b => viol(&mut res, "update-past-bound", format!("trading time {} accepted; mint start {} + offset {} s in force = {} ({} ns earlier)", x, start, offset, b, x - b)),
+                                Some(b) if x > b => viol(&mut res, "update-past-bound", format!("trading time {} accepted; mint start {} (as last accepted) + offset {} s (as governance last set it) = {} ({} ns earlier)", x, start, offset, b, x - b)),
                                 _ => {}
                             }
                         }
@@ -637,7 +806,7 @@ pub fn run_case(c: &Case) -> CaseResult {
                 if !matches!(fam, Fam::Vending(_)) {
                     res.coq.push(format!(
                         "(KUpdate {} {} {} {} {} {} {} {} {} {})",
-                        fam.coq(), now, if fam.bounded() { start } else { 0 }, offset, coq_bool(*who == admin), coq_bool(*funds == 0),
+                        fam.coq(), now, if fam.bounded() { cstart } else { 0 }, coffset, coq_bool(*who == admin), coq_bool(*funds == 0),
                         coq_opt_n(tt), coq_opt_n(before), coq_bool(ok), coq_opt_n(after)
                     ));
                 }
@@ -660,7 +829,7 @@ pub fn run_case(c: &Case) -> CaseResult {
         let sc = w_sale::case_coq(sw, &sale_init, &sale_bal, &sale_steps);
         res.coq.push(format!("(KSale {})", sc));
     }
-    res.summary = json!({"family": name, "collection": coll_kind, "offset": offset0, "requested": format!("{:?}", c.requested),
+    res.summary = json!({"family": name, "collection": coll_kind, "dims": format!("{:?}", dims), "offset": offset0, "requested": format!("{:?}", c.requested),
         "ops": c.ops.len(), "accepted_updates": ok_updates, "first_ops": c.ops.iter().take(6).map(|o| format!("{:?}", o)).collect::<Vec<_>>()});
     res
 }
@@ -676,7 +845,7 @@ fn trading(who: &str, t: T) -> Cop {
 fn creation_probes(fam: Fam, updatable: bool) -> Vec<Case> {
     let mut v = vec![];
     let mut add = |offset: Off, requested: T, ops: Vec<Cop>| {
-        v.push(Case { fam, updatable, start_in_secs: 3000, offset, requested, ops });
+        v.push(Case { fam, updatable, start_in_secs: 3000, offset, requested, ops, dims: Dims::default() });
     };
     let tail = || vec![trading(CREATOR, T::Bound(0)), trading(CREATOR, T::Bound(1))];
     if updatable {
@@ -809,7 +978,70 @@ fn probe_history(fam: Fam, updatable: bool) -> Case {
         // keep the second collection type cheaper: drop the overflow block
         ops.retain(|o| !matches!(o, Cop::Offset { offset: Off::Abs(MUL_OVERFLOW) } | Cop::Offset { offset: Off::Abs(u64::MAX) }));
     }
-    Case { fam, updatable, start_in_secs: 3000, offset: Off::Abs(WEEK), requested: T::Bound(0), ops }
+    Case { fam, updatable, start_in_secs: 3000, offset: Off::Abs(WEEK), requested: T::Bound(0), ops, dims: Dims::default() }
+}
+
+const DAY: u64 = 24 * 3600;
+/// the configuration dimensions a bound could be wrongly anchored at, per family
+fn dim_configs(fam: Fam) -> Vec<Dims> {
+    let wl = Some((1000u64, 2000u64));
+    // a whitelist window that lies AFTER the mint start (start_in_secs = 3000): an anchor later than the right one
+    let wl_late = Some((5000u64, 9000u64));
+    match fam {
+        Fam::OpenEdition(_) => vec![
+            Dims { end_after_secs: None, unlimited: false, wl: None },
+            Dims { end_after_secs: Some(600), unlimited: false, wl: None },
+            Dims { end_after_secs: Some(600), unlimited: true, wl },
+            Dims { end_after_secs: Some(30 * DAY), unlimited: false, wl: wl_late },
+            Dims { end_after_secs: Some(30 * DAY), unlimited: true, wl: None },
+        ],
+        Fam::Vending(_) => vec![
+            Dims::default(),
+            Dims { end_after_secs: None, unlimited: false, wl },
+            Dims { end_after_secs: None, unlimited: false, wl: wl_late },
+        ],
+        _ => vec![Dims::default()],
+    }
+}
+
+/// creation with the requested trading time at every candidate anchor + offset, +0 and +1 ns
+fn anchor_creations(fam: Fam, dims: Dims) -> Vec<Case> {
+    let mut v = vec![];
+    for anchor in [Anchor::Creation, Anchor::Start, Anchor::End, Anchor::WlStart, Anchor::WlEnd, Anchor::Genesis] {
+        for d in [0i64, 1] {
+            v.push(Case { fam, updatable: false, start_in_secs: 3000, offset: Off::Abs(WEEK), requested: T::A { anchor, off: OffSel::Cur, d },
+                          ops: vec![], dims });
+        }
+    }
+    v
+}
+
+/// updates at every candidate anchor + {current, original, previous} offset, +0 and +1 ns: with everything
+/// as created, after governance lowered the offset and the admin moved the mint start earlier (and the end
+/// time later), after governance raised the offset and the start moved later, and after the mint start
+fn anchor_history(fam: Fam, dims: Dims) -> Case {
+    let a = CREATOR;
+    let mut ops = vec![Cop::At { secs: 10, nanos: 0 }];
+    let mut sweep = |ops: &mut Vec<Cop>, anchors: &[Anchor], offs: &[OffSel]| {
+        for anchor in anchors {
+            for off in offs {
+                for d in [0i64, 1] {
+                    ops.push(trading(a, T::A { anchor: *anchor, off: *off, d }));
+                }
+            }
+        }
+    };
+    sweep(&mut ops, &ANCHORS, &[OffSel::Cur]);
+    ops.push(Cop::Offset { offset: Off::Abs(3 * DAY) });
+    ops.push(Cop::StartTime { who: a.into(), t: T::Start(-(500 * S as i64)) });
+    ops.push(Cop::EndTime { who: a.into(), t: T::A { anchor: Anchor::End, off: OffSel::Cur, d: -((3 * DAY - 3000) as i64 * S as i64) } });
+    sweep(&mut ops, &ANCHORS, &[OffSel::Cur, OffSel::Orig]);
+    ops.push(Cop::Offset { offset: Off::Abs(10 * DAY) });
+    ops.push(Cop::StartTime { who: a.into(), t: T::Start(2000 * S as i64) });
+    sweep(&mut ops, &ANCHORS, &[OffSel::Cur, OffSel::Orig, OffSel::Prev]);
+    ops.push(Cop::At { secs: 8000, nanos: 0 });
+    sweep(&mut ops, &[Anchor::Now, Anchor::Start, Anchor::OrigStart, Anchor::End, Anchor::OrigEnd, Anchor::Creation], &[OffSel::Cur, OffSel::Orig]);
+    Case { fam, updatable: false, start_in_secs: 3000, offset: Off::Abs(WEEK), requested: T::Bound(0), ops, dims }
 }
 
 fn gen_case(rng: &mut Rng, fam: Fam, lits: &[u64], thorough: bool) -> Case {
@@ -822,7 +1054,13 @@ fn gen_case(rng: &mut Rng, fam: Fam, lits: &[u64], thorough: bool) -> Case {
             4..=7 => T::Bound(d),
             8 => T::Start(d),
             9 => T::NowPlusOffset(d),
-            10 => T::Abs(*rng.pick(&[0u64, 1, T0, u64::MAX, u64::MAX - 1, chain::GENESIS_NS])),
+            10 => {
+                if rng.chance(1, 2) {
+                    T::Abs(*rng.pick(&[0u64, 1, T0, u64::MAX, u64::MAX - 1, chain::GENESIS_NS]))
+                } else {
+                    T::A { anchor: *rng.pick(&ANCHORS), off: *rng.pick(&[OffSel::Cur, OffSel::Orig, OffSel::Prev]), d: *rng.pick(&[-1i64, 0, 1]) }
+                }
+            }
             _ => T::Now(rng.below(40 * 24 * 3600) as i64 * S as i64),
         }
     };
@@ -888,7 +1126,13 @@ fn gen_case(rng: &mut Rng, fam: Fam, lits: &[u64], thorough: bool) -> Case {
             i += 1;
         }
     }
-    Case { fam, updatable: rng.chance(1, 3), start_in_secs, offset, requested, ops }
+    let cfgs = dim_configs(fam);
+    let dims = *rng.pick(&cfgs);
+    if dims.end_after_secs.is_some() {
+        let at = rng.below(ops.len() as u64 + 1) as usize;
+        ops.insert(at, Cop::EndTime { who: CREATOR.into(), t: T::A { anchor: Anchor::End, off: OffSel::Cur, d: (rng.below(20 * DAY) as i64 - (WEEK as i64)) * S as i64 } });
+    }
+    Case { fam, updatable: rng.chance(1, 3), start_in_secs, offset, requested, ops, dims }
 }
 
 pub fn run(a: &Args) {
@@ -920,6 +1164,10 @@ pub fn run(a: &Args) {
             for updatable in [false, true] {
                 v.push(probe_history(fam, updatable));
                 v.extend(creation_probes(fam, updatable));
+            }
+            for dims in dim_configs(fam) {
+                v.push(anchor_history(fam, dims));
+                v.extend(anchor_creations(fam, dims));
             }
         }
         let per_fam = if a.thorough() { 40 } else { 3 };
@@ -964,6 +1212,28 @@ pub fn run(a: &Args) {
     }
     rep.distinct_nontrivial = distinct.len() as u64;
     rep.rule = "creations through the real factories and UpdateStartTradingTime / UpdateStartTime / sudo offset / direct collection calls on every minter family (6 vending, 3 open-edition, token-merge, base) x {sg721-base, sg721-updatable}; evaluations = contract calls executed (creations, updates, start moves, sudo, direct calls); distinct_nontrivial = distinct (family, collection type, op, symbolic time, clock, stored start, offset in force, outcome) tuples of creations, funds-free updates and direct calls".into();
+    // the sale-world histories are by far the largest terms: deal the terms over the shards by size
+    // (write_cases cuts the list into contiguous pieces of ceil(n/6))
+    let coq_cases: Vec<String> = {
+        let n = coq_cases.len();
+        let shards = 6usize;
+        let per = (n + shards - 1) / shards.max(1);
+        let mut order: Vec<usize> = (0..n).collect();
+        order.sort_by_key(|i| std::cmp::Reverse(coq_cases[*i].len()));
+        let caps: Vec<usize> = (0..shards).map(|k| per.min(n.saturating_sub(k * per))).collect();
+        let mut bins: Vec<Vec<usize>> = vec![vec![]; shards];
+        let mut k = 0;
+        for i in order {
+            let mut tries = 0;
+            while bins[k].len() >= caps[k] && tries < shards {
+                k = (k + 1) % shards;
+                tries += 1;
+            }
+            bins[k].push(i);
+            k = (k + 1) % shards;
+        }
+        bins.into_iter().flatten().map(|i| coq_cases[i].clone()).collect()
+    };
     out.write_cases(
         "C19",
         "From LP Require Import Num Pay Sg1 Bank MinterVending SaleCorr Trading C19Corr.",
